@@ -9,6 +9,7 @@ import (
 	"verif/harness/datebounds"
 	"verif/harness/datecompare"
 	"verif/harness/dates"
+	"verif/harness/nodeheap"
 )
 
 func main() {
@@ -26,6 +27,8 @@ func main() {
 		err = datecompare.Main(os.Args[2:])
 	case "dates":
 		err = dates.Main(os.Args[2:])
+	case "nodeheap":
+		err = nodeheap.Main(os.Args[2:])
 	default:
 		err = fmt.Errorf("unknown engine %q", os.Args[1])
 	}
